@@ -118,6 +118,25 @@ def run(tier, seed):
                     hits.setdefault(known[f["klass"]]["id"], []).append(f)
                 else:
                     viol.append(f)
+        # a name that is not valid UTF-8 cannot be a JSON string: its events must still be there (lossily written), one per change
+        bb = os.path.join(sc.dir, "bytes").encode()
+        os.makedirs(bb + b"/src"); os.makedirs(bb + b"/dst")
+        for nm, data in ((b"data_\xf0.bin", b"a" * 10), (b"ok.txt", b"b"), (b"upd_\xf1", b"new content")):
+            with open(bb + b"/src/" + nm, "wb") as fh:
+                fh.write(data)
+        with open(bb + b"/dst/upd_\xf1", "wb") as fh:
+            fh.write(b"old")
+        os.utime(bb + b"/dst/upd_\xf1", ns=(ew.T0NS, ew.T0NS))
+        env = dict(os.environ); env.update(sc.env)
+        import subprocess
+        pr_ = subprocess.run([world.SY.encode(), bb + b"/src", bb + b"/dst", b"--json", b"-j1"], env=env, stdout=subprocess.PIPE, stderr=subprocess.PIPE)
+        kinds = {}
+        for l in pr_.stdout.decode("utf-8", "replace").split("\n"):
+            if l.startswith("{"):
+                t = json.loads(l).get("type")
+                kinds[t] = kinds.get(t, 0) + 1
+        if kinds.get("create", 0) != 2 or kinds.get("update", 0) != 1:
+            viol.append({"world": "bytes-names", "why": "3 entries changed (2 created, 1 updated; two names are not valid UTF-8) but the stream has %r" % kinds})
     model = [ew.model_obs(m) for m in vlib.run_model(cases)]
     for case, o, m in zip(cases, obs_l, model):
         if o != m and ew.norm_events(o) != ew.norm_events(m):          # with several workers the events come in completion order
